@@ -1,0 +1,13 @@
+//! Child module of `crate::ser_quoting` (declared there with `#[path]` under the `verif_hooks` feature):
+//! exposes the module-private predicates. Add-only.
+#![allow(missing_docs, dead_code, clippy::all)]
+
+pub fn is_numeric_looking(s: &str) -> bool {
+    super::is_numeric_looking(s)
+}
+pub fn is_ambiguous(s: &str) -> bool {
+    super::is_ambiguous(s)
+}
+pub fn is_ambiguous_value(s: &str, yaml_12: bool) -> bool {
+    super::is_ambiguous_value(s, yaml_12)
+}
